@@ -407,7 +407,10 @@ func plan(tier string) []*Tree {
 		}
 		return trees
 	}
-	// thorough
+	// thorough: depth 3 on the plain trees; depth 2 on the mixed-body trees and on the groups
+	// of harmless declarations / imports; depth 1 (with the extra events) on the rotated
+	// mixed-body trees and on the groups whose elements end in a finding at the first
+	// regeneration anyway; depth 1 on one tree per single alphabet element
 	for _, l := range layouts {
 		add(l, uniform("plain"), []string{"none"}, 3, baseEvents)
 	}
@@ -416,16 +419,17 @@ func plan(tier string) []*Tree {
 			add(l, mixed(t, 0), []string{"none"}, 2, baseEvents)
 			add(l, mixed(t, 3), []string{"none"}, 1, all)
 		}
-		for _, g := range groups {
-			add(l, uniform("plain"), group(g), 2, baseEvents)
-		}
+		add(l, uniform("plain"), group("decls"), 2, baseEvents)
+		add(l, uniform("plain"), group("imports"), 2, baseEvents)
+		add(l, uniform("plain"), group("imports2"), 1, all)
+		add(l, uniform("plain"), group("terminators"), 1, all)
 	}
 	for _, l := range layouts {
 		for _, b := range bodies[1:] {
-			add(l, uniform(b.Name), []string{"none"}, 1, all)
+			add(l, uniform(b.Name), []string{"none"}, 1, baseEvents)
 		}
 		for _, d := range decls[1:] {
-			add(l, uniform("plain"), []string{d.Name}, 1, all)
+			add(l, uniform("plain"), []string{d.Name}, 1, baseEvents)
 		}
 	}
 	return trees
@@ -651,16 +655,16 @@ func main() {
 		dn = append(dn, d.Name)
 	}
 	check.Cov["bounds"] = map[string]any{
-		"initial_trees":                      len(trees),
-		"trees_by_depth_bound":               byDepth,
-		"events":                             evNames,
-		"extra_events_depth1_trees_thorough": exNames,
-		"body_alphabet":                      bn,
-		"declaration_alphabet":               dn,
-		"layouts":                            []string{layoutFollow, layoutSingle},
-		"closure":                            "every history is followed by two regenerations",
-		"state_identity":                     "SHA-256 over layout, current schema files, schema of last generation, hand-editable Go files of the resolver package",
-		"trees":                              treeDesc,
+		"initial_trees":        len(trees),
+		"trees_by_depth_bound": byDepth,
+		"events":               evNames,
+		"extra_events_on_some_depth1_trees_thorough": exNames,
+		"body_alphabet":        bn,
+		"declaration_alphabet": dn,
+		"layouts":              []string{layoutFollow, layoutSingle},
+		"closure":              "every history is followed by two regenerations",
+		"state_identity":       "SHA-256 over layout, current schema files, schema of last generation, hand-editable Go files of the resolver package",
+		"trees":                treeDesc,
 	}
 	check.Assume = []string{
 		"the generator is deterministic for a given tree (C18), so a (state, regen) transition is executed once",
